@@ -593,6 +593,53 @@ func cliErrAnswer(err error, items []cliItem) string {
 	return "err"
 }
 
+// ---------------------------------------------------------------------------------------------
+// connect entry points
+//
+// kmipclient has two of them: DialContext and DialClusterContext (dialer_cluster.go), which repeats the body
+// of the former (options, default version list, enforced version, discovery exchange). Both are driven with
+// the same cases and produce the same protocol lines: the model knows one `Dial`.
+//   'd' DialContext
+//   'c' DialClusterContext, two addresses, WithRetryTimeout given
+//   'C' DialClusterContext, two addresses, default retry timeout (no WithRetryTimeout option)
+const cliDialEntries = "dcC"
+
+func cliDial(entry byte, ctx context.Context, opts []kmipclient.Option) (*kmipclient.Client, error) {
+	opts = append([]kmipclient.Option(nil), opts...)
+	switch entry {
+	case 'c':
+		return kmipclient.DialClusterContext(ctx, []string{"pipe", "pipe-2"}, append(opts, kmipclient.WithRetryTimeout(time.Second))...)
+	case 'C':
+		return kmipclient.DialClusterContext(ctx, []string{"pipe", "pipe-2"}, opts...)
+	}
+	return kmipclient.DialContext(ctx, "pipe", opts...)
+}
+
+func cliEntryName(entry byte) string {
+	switch entry {
+	case 'c':
+		return "DialClusterContext+WithRetryTimeout"
+	case 'C':
+		return "DialClusterContext"
+	}
+	return "DialContext"
+}
+
+// cliDialPanic reports a panicking connect call. A panic of the cluster entry point before anything was sent
+// has its own key (it does not depend on the server's answer).
+func cliDialPanic(ctx *Ctx, entry byte, pn string, exchanged bool, line string) {
+	key := "dial:panic " + panicKey(pn)
+	if entry != 'd' && !exchanged {
+		key = "dialcluster:panic-before-any-exchange " + panicKey(pn)
+	}
+	cliViolate(ctx, "C12", "no-panic", key, cliEntryName(entry)+" panicked: "+pn, line)
+}
+
+// cliVersionOf: Client.Version() under guard (a client returned without a version panics there).
+func cliVersionOf(cl *kmipclient.Client) (cliVer, string) {
+	return guard("Version", func() cliVer { return cl.Version() })
+}
+
 // =============================================================================================
 // engine nego (C13)
 
@@ -665,6 +712,7 @@ type negoCase struct {
 	libSet  []cliVer // argument order as passed
 	rt      cliRT    // scripted discovery answer
 	inject  bool     // scripted answer fabricated by a client middleware instead of sent on the wire
+	entry   byte     // connect entry point (cliDialEntries); 0 = 'd'
 }
 
 func (nc *negoCase) callsStr() string {
@@ -829,8 +877,12 @@ func runNegoCaseOnce(ctx *Ctx, nc negoCase, dialTimeout time.Duration) (deadline
 		err error
 	}
 	dctx, cancel := context.WithTimeout(context.Background(), dialTimeout)
+	entry := nc.entry
+	if entry == 0 {
+		entry = 'd'
+	}
 	dr, pn := guard("Dial", func() dialRes {
-		cl, err := kmipclient.DialContext(dctx, "pipe", opts...)
+		cl, err := cliDial(entry, dctx, opts)
 		return dialRes{cl, err}
 	})
 	expired := dctx.Err() != nil
@@ -841,6 +893,7 @@ func runNegoCaseOnce(ctx *Ctx, nc negoCase, dialTimeout time.Duration) (deadline
 	}
 	events := obs.take()
 	seenDial := ep.takeSeen()
+	ctx.Res.Count("nego.entry=" + cliEntryName(entry))
 
 	// the discovery exchange as observed: by the server side (wire) or by the middleware (inject)
 	disc := "-"
@@ -900,15 +953,36 @@ func runNegoCaseOnce(ctx *Ctx, nc negoCase, dialTimeout time.Duration) (deadline
 	var impl string
 	adopted := false
 	var version cliVer
+	if pn == "" && dr.err == nil {
+		// a connect call that reports success must hand out a client that has a version
+		var vp string
+		if dr.cl == nil {
+			vp = "nil client returned without error"
+		} else {
+			version, vp = cliVersionOf(dr.cl)
+		}
+		if vp != "" {
+			cliViolate(ctx, "C13", "adopted", "nego:dial-succeeds-without-version", cliEntryName(entry)+" returned no error but Version() panics: "+vp, line)
+			if dr.cl != nil {
+				_, _ = guard("Close", func() error { return dr.cl.Close() })
+			}
+			pn = "Version() of the client returned by " + cliEntryName(entry) + ": " + vp
+		}
+	}
 	switch {
 	case pn != "":
 		impl = "panic"
-		cliViolate(ctx, "C12", "no-panic", "dial:panic "+panicKey(pn), "Dial panicked: "+pn, line)
+		cliDialPanic(ctx, entry, pn, discSeen != nil, line)
+		if entry != 'd' && discSeen == nil && len(events) == 0 {
+			// nothing of the connect sequence was executed: there is no behaviour to compare with the model
+			ep.shutdown(ctx)
+			ctx.Res.Count("nego.cluster-entry-panicked-before-any-exchange")
+			return false
+		}
 	case dr.err != nil:
 		impl = cliErrAnswer(dr.err, rtObs.items) + " disc=" + disc
 	default:
 		adopted = true
-		version = dr.cl.Version()
 		// supporting evidence for the model's store: in the 1.0 fallback the client's version field is
 		// &kmip.V1_0, elsewhere a variable of its own (Lean: fallback_aliases_exported_variable). Not compared.
 		func() {
@@ -1318,7 +1392,11 @@ func negoReplay(ctx *Ctx, l string) {
 	default:
 		return
 	}
-	runNegoCase(ctx, nc)
+	// the line does not say through which connect entry point it was produced: all of them
+	for _, e := range []byte(cliDialEntries) {
+		nc.entry = e
+		runNegoCase(ctx, nc)
+	}
 }
 
 // cliGoroutines records how many goroutines outlive an engine run (clients and pipes are all closed).
@@ -1353,6 +1431,17 @@ func runNego(ctx *Ctx) {
 			c := cliSubset(cm)
 			nc := negoCase{lib: true, libMode: 's', libSet: cliShuffle(r, cliSubset(sm)), calls: [][]cliVer{cliShuffle(r, c)}}
 			runNegoCase(ctx, nc)
+			// the same pair through the cluster entry point (every pair in the thorough tier)
+			if ctx.Thor || (cm*3+sm)%5 == 1 {
+				ncc := nc
+				ncc.entry = 'c'
+				runNegoCase(ctx, ncc)
+			}
+			if sm == 31 || (ctx.Thor && sm%8 == 3) {
+				ncc := nc
+				ncc.entry = 'C'
+				runNegoCase(ctx, ncc)
+			}
 			// the same pair with the configuration spelled differently (several calls, duplicates)
 			if ctx.Thor || (cm+sm)%4 == 0 {
 				nc2 := nc
@@ -1367,6 +1456,14 @@ func runNego(ctx *Ctx) {
 				nc3 := nc
 				nc3.enforce = &e
 				runNegoCase(ctx, nc3)
+				if (cm+sm)%2 == 0 {
+					nc3.entry = 'c'
+					runNegoCase(ctx, nc3)
+				}
+				if (cm+sm)%16 == 5 {
+					nc3.entry = 'C'
+					runNegoCase(ctx, nc3)
+				}
 			}
 		}
 		// server never configured
@@ -1376,6 +1473,8 @@ func runNego(ctx *Ctx) {
 	for sm := 0; sm < 32; sm++ {
 		runNegoCase(ctx, negoCase{lib: true, libMode: 's', libSet: cliSubset(sm)})
 		runNegoCase(ctx, negoCase{lib: true, libMode: 's', libSet: cliSubset(sm), calls: [][]cliVer{{}}})
+		runNegoCase(ctx, negoCase{lib: true, libMode: 's', libSet: cliSubset(sm), entry: 'c'})
+		runNegoCase(ctx, negoCase{lib: true, libMode: 's', libSet: cliSubset(sm), calls: [][]cliVer{{}}, entry: "cC"[sm%2]})
 	}
 	// (b) scripted servers
 	item := func(op, status, reason uint32, msg string, pl cliPl, vers []cliVer) cliRT {
@@ -1407,7 +1506,11 @@ func runNego(ctx *Ctx) {
 				a = append(a, rng.Pick(r, pool))
 			}
 			rt := cliRT{hdr: 1, items: []cliItem{{op: cliOpDiscover, pl: cliPl{kind: 'r', op: cliOpDiscover}, vers: a}}}
-			runNegoCase(ctx, negoCase{calls: cliSplitCalls(r, c), rt: rt, inject: k%2 == 1})
+			oc := negoCase{calls: cliSplitCalls(r, c), rt: rt, inject: k%2 == 1}
+			if k%8 >= 6 {
+				oc.entry = 'c'
+			}
+			runNegoCase(ctx, oc)
 			ctx.Res.Count("nego.odd-version-sets")
 		}
 	}
@@ -1468,9 +1571,18 @@ func runNego(ctx *Ctx) {
 				nc.inject = !nc.inject
 				runNegoCase(ctx, nc)
 			}
+			if i%3 == 1 || ctx.Thor { // the cluster entry point (both transports over the run)
+				ncc := nc
+				ncc.entry = 'c'
+				if i%21 == 10 {
+					ncc.entry = 'C'
+				}
+				runNegoCase(ctx, ncc)
+			}
 			if i%9 == 0 { // enforced: the answer must not matter
 				e := rng.Pick(r, append(append([]cliVer(nil), cliStdVersions...), extra[0]))
 				nc.enforce = &e
+				nc.entry = "dc"[(i/9)%2]
 				runNegoCase(ctx, nc)
 			}
 		}
@@ -1872,15 +1984,20 @@ func respCase(env *respEnv, api *respAPI, script cliRT, inject bool) {
 // respDialCase: the discovery exchange of Dial against an arbitrary response. (A Dial that runs into the
 // harness deadline is evaluated again with a long one, see runNegoCase.)
 func respDialCase(ctx *Ctx, clientVers []cliVer, script cliRT, inject bool) {
-	if respDialCaseOnce(ctx, clientVers, script, inject, 5*time.Second) {
+	respDialCaseVia(ctx, 'd', clientVers, script, inject)
+}
+
+// respDialCaseVia: the same case through the connect entry point `entry` (see cliDial).
+func respDialCaseVia(ctx *Ctx, entry byte, clientVers []cliVer, script cliRT, inject bool) {
+	if respDialCaseOnce(ctx, entry, clientVers, script, inject, 5*time.Second) {
 		ctx.Res.Count("resp.dial-deadline-retried")
-		if respDialCaseOnce(ctx, clientVers, script, inject, 90*time.Second) {
+		if respDialCaseOnce(ctx, entry, clientVers, script, inject, 90*time.Second) {
 			ctx.Res.Fail("resp: Dial did not return within 90 s (harness deadline) at: " + ctx.current)
 		}
 	}
 }
 
-func respDialCaseOnce(ctx *Ctx, clientVers []cliVer, script cliRT, inject bool, dialTimeout time.Duration) (deadline bool) {
+func respDialCaseOnce(ctx *Ctx, entry byte, clientVers []cliVer, script cliRT, inject bool, dialTimeout time.Duration) (deadline bool) {
 	ep := &cliEndpoint{}
 	obs := &cliObs{}
 	if inject {
@@ -1919,7 +2036,7 @@ func respDialCaseOnce(ctx *Ctx, clientVers []cliVer, script cliRT, inject bool, 
 	}
 	dctx, cancel := context.WithTimeout(context.Background(), dialTimeout)
 	dr, pn := guard("Dial", func() dialRes {
-		cl, err := kmipclient.DialContext(dctx, "pipe", opts...)
+		cl, err := cliDial(entry, dctx, opts)
 		return dialRes{cl, err}
 	})
 	expired := dctx.Err() != nil
@@ -1929,6 +2046,7 @@ func respDialCaseOnce(ctx *Ctx, clientVers []cliVer, script cliRT, inject bool, 
 		return true
 	}
 	events := obs.take()
+	ctx.Res.Count("resp.dial-entry=" + cliEntryName(entry))
 	seen := script
 	received := inject && !script.fail
 	if len(events) > 0 {
@@ -1944,15 +2062,44 @@ func respDialCaseOnce(ctx *Ctx, clientVers []cliVer, script cliRT, inject bool, 
 	line := "resp.interpret dial " + cliVersStr(C) + " " + seen.String()
 	ctx.current = line
 	var impl string
+	var adoptedV cliVer
+	if pn == "" && dr.err == nil {
+		// a connect call that reports success must hand out a usable client
+		var vp string
+		if dr.cl == nil {
+			vp = "nil client returned without error"
+		} else if adoptedV, vp = cliVersionOf(dr.cl); vp == "" {
+			// ... on which a request does not panic either
+			_, vp = guard("Batch", func() error {
+				rctx, cancel := context.WithTimeout(context.Background(), 50*time.Millisecond)
+				defer cancel()
+				obs.setInject(func(req *kmip.RequestMessage) (*kmip.ResponseMessage, error, bool) { return nil, errCliInjected, true })
+				_, err := dr.cl.Batch(rctx, &payloads.ActivateRequestPayload{UniqueIdentifier: "id-1"})
+				return err
+			})
+		}
+		if vp != "" {
+			pn = "client returned without error by " + cliEntryName(entry) + ": " + vp
+			if dr.cl != nil {
+				_, _ = guard("Close", func() error { return dr.cl.Close() })
+			}
+		}
+	}
 	switch {
 	case pn != "":
 		impl = "panic"
-		cliViolate(ctx, "C12", "no-panic", "dial:panic "+panicKey(pn), "Dial panicked: "+pn, line)
+		cliDialPanic(ctx, entry, pn, len(events) > 0, line)
+		if entry != 'd' && len(events) == 0 {
+			// nothing of the connect sequence was executed: there is no behaviour to compare with the model
+			ep.shutdown(ctx)
+			ctx.Res.Count("resp.cluster-entry-panicked-before-any-exchange")
+			return false
+		}
 	case dr.err != nil:
 		impl = cliErrAnswer(dr.err, seen.items)
 	default:
-		impl = "ok " + cliVerStr(dr.cl.Version())
-		_ = dr.cl.Close()
+		impl = "ok " + cliVerStr(adoptedV)
+		_, _ = guard("Close", func() error { return dr.cl.Close() })
 	}
 	ep.shutdown(ctx)
 	if pn == "" {
@@ -1985,6 +2132,17 @@ func respDialCaseOnce(ctx *Ctx, clientVers []cliVer, script cliRT, inject bool, 
 	ctx.Res.Count("resp.api=dial")
 	ctx.Res.Count("resp.result=" + strings.SplitN(impl, " ", 2)[0])
 	return false
+}
+
+// cliMessages: result messages a server may send (valid UTF-8; the client must hand them over unchanged).
+var cliMessages = []string{
+	"boom: x=1",
+	"100%s done, %d%% left, %v %!x %",
+	`quoted "text" with a \ and 'single' quotes`,
+	"line 1\nline 2\tafter a tab",
+	"cl\u00e9 refus\u00e9e \u2713 \u2014 \u00fcn\u00ef",
+	"boom: x=1",
+	strings.Repeat("a rather long explanation, 0123456789; ", 12) + "END-OF-MESSAGE",
 }
 
 // respItems enumerates the abstract items for a requested operation.
@@ -2032,7 +2190,8 @@ func respItems(reqOp uint32, inject bool, dial bool, alsoOps ...uint32) []cliIte
 				for _, pl := range pls {
 					it := cliItem{op: op, status: st, reason: re, pl: pl}
 					if (st+re)%2 == 1 {
-						it.msg = "boom: x=1"
+						// the server's message is free text: format verbs, quotes, line breaks, non-ASCII, long
+						it.msg = cliMessages[(int(st)*7+int(re)*3+int(op%11)+len(out))%len(cliMessages)]
 					}
 					if pl.kind == 'r' && pl.op == cliOpDiscover {
 						it.vers = []cliVer{kmip.V1_0, kmip.V1_3, cliV(2, 0), kmip.V1_2}
@@ -2058,7 +2217,9 @@ func respReplay(ctx *Ctx, env *respEnv, l string) {
 			if err != nil {
 				return
 			}
-			respDialCase(ctx, vs, rt, true)
+			for _, e := range []byte(cliDialEntries) {
+				respDialCaseVia(ctx, e, vs, rt, true)
+			}
 			return
 		}
 		for _, api := range respAPIs() {
@@ -2259,6 +2420,24 @@ func runResp(ctx *Ctx) {
 					if r.Chance(1, 8) {
 						h = rng.Pick(r, append([]int32{int32(n) - 1, int32(n) + 1}, hdrs...))
 					}
+					if k%8 == 5 {
+						// many failed items at once, each with a message of its own (a server that stops at the
+						// first error fails every later item); sometimes beside one successful item that
+						// violates the protocol
+						its = conforming(api)
+						from := r.Intn(n - 3) // at least four failed items
+						if r.Chance(1, 3) {
+							from = 0
+						}
+						for i := from; i < n; i++ {
+							its[i] = cliItem{op: api.reqOps[i], status: rng.Pick(r, []uint32{1, 1, 2, 3, 7}), reason: rng.Pick(r, []uint32{0, 1, 2, 0x99}),
+								msg: fmt.Sprintf("failure at position %d of %d", i, n), pl: cliPl{kind: 'n'}}
+						}
+						if from > 0 && r.Chance(1, 3) {
+							its[r.Intn(from)].pl = cliPl{kind: 'n'}
+						}
+						ctx.Res.Count("resp.long-batch.many-failed-items")
+					}
 					switch r.Intn(12) {
 					case 0:
 						its = its[:n-1] // an item short
@@ -2315,21 +2494,39 @@ func runResp(ctx *Ctx) {
 			if inject {
 				items = dialItems
 			}
+			okItem := cliItem{op: cliOpDiscover, pl: cliPl{kind: 'r', op: cliOpDiscover}, vers: []cliVer{kmip.V1_0, kmip.V1_2}}
+			respDialCaseVia(ctx, 'C', cset, cliRT{hdr: 1, items: []cliItem{okItem}}, inject)
 			respDialCase(ctx, cset, cliRT{fail: true}, inject)
+			respDialCaseVia(ctx, 'c', cset, cliRT{fail: true}, inject)
 			if !inject {
 				respDialCase(ctx, cset, cliRT{echo: true}, inject)
+				respDialCaseVia(ctx, 'c', cset, cliRT{echo: true}, inject)
 			}
 			for _, h := range hdrs {
 				respDialCase(ctx, cset, cliRT{hdr: h}, inject)
-				for _, it := range items {
+				respDialCaseVia(ctx, 'c', cset, cliRT{hdr: h}, inject)
+				for k, it := range items {
 					if h != 1 && !ctx.Thor && r.Chance(2, 3) {
 						continue
 					}
 					respDialCase(ctx, cset, cliRT{hdr: h, items: []cliItem{it}}, inject)
+					// the cluster entry point: every shape under a header count of 1, the others sampled
+					if h == 1 || ctx.Thor || k%4 == 1 {
+						respDialCaseVia(ctx, 'c', cset, cliRT{hdr: h, items: []cliItem{it}}, inject)
+					}
+					if h == 1 && k%40 == 7 {
+						respDialCaseVia(ctx, 'C', cset, cliRT{hdr: h, items: []cliItem{it}}, inject)
+					}
+				}
+			}
+			// header counts that only a narrowing or unsigned comparison would take for 1, on a conforming answer
+			for _, h := range []int32{257, -255, 65537, -65535, 1<<31 - 1, -(1 << 31), 3, 255} {
+				for _, e := range []byte("dc") {
+					respDialCaseVia(ctx, e, cset, cliRT{hdr: h, items: []cliItem{okItem}}, inject)
 				}
 			}
 			for k := 0; k < ctx.N(100, 2000); k++ {
-				respDialCase(ctx, cset, cliRT{hdr: rng.Pick(r, hdrs), items: []cliItem{rng.Pick(r, items), rng.Pick(r, items)}}, inject)
+				respDialCaseVia(ctx, "ddc"[k%3], cset, cliRT{hdr: rng.Pick(r, hdrs), items: []cliItem{rng.Pick(r, items), rng.Pick(r, items)}}, inject)
 			}
 		}
 	}
